@@ -155,7 +155,7 @@ def gen_literal_case(rng):
     return dict(patterns=pats, opts=o, lines=lines)
 
 
-ANCHORED = ["foo\\z", "\\Afoo", "(?-m:foo$)", "(?-m:^)foo", "fo+\\z", "\\Aa|b\\z", "foo(?-m:$)|bar", "\\A(?:foo|bar)", "[a-z]+\\z", "\\Afoo\\z",
+ANCHORED = ["\\A[0-9]+", "\\A[a-z]+", "\\A\\w+", "\\A\\d+x?", "(?-m:^)[a-z]+", "\\A[0-9]", "\\A[a-z]{2,}\\z", "\\A.", "foo\\z", "\\Afoo", "(?-m:foo$)", "(?-m:^)foo", "fo+\\z", "\\Aa|b\\z", "foo(?-m:$)|bar", "\\A(?:foo|bar)", "[a-z]+\\z", "\\Afoo\\z",
             "(?-m:^foo$)", "ba?r\\z", "\\w+\\z"]
 
 
@@ -164,8 +164,54 @@ def gen_anchor_case(rng):
     lines match on their own; the terminator must then be withheld"""
     pat = rng.choice(ANCHORED)
     o = default_opts(whole=rng.random() < 0.5, word=rng.random() < 0.4, crlf=rng.random() < 0.25, unicode=rng.random() < 0.8)
-    pool = [b"foo", b"bar", b"foo", b"a", b"b", b"x foo", b"foo x", b"fooo", b"br", b"", b"zz", b"foo bar"]
+    pool = [b"foo", b"bar", b"foo", b"a", b"b", b"x foo", b"foo x", b"fooo", b"br", b"", b"zz", b"foo bar", b"123", b"7", b"42x",
+            b"-", b" 9", b"Q"]
     lines = [rng.choice(pool) for _ in range(rng.randint(2, 5))]
+    if rng.random() < 0.5:
+        lines.insert(0, rng.choice([b"-", b"", b" ", b"Q!"]))      # the anchored line is not the first one
+    return dict(patterns=[pat], opts=o, lines=lines)
+
+
+NEST_PRE = [("", b""), ("\\s+", b" "), ("\\b[A-Z]", b"Q"), ("\\s+[A-Z]", b" Q")]
+NEST_L1 = ["foo", "ab", "Sher", "x1"]
+NEST_IN = [("(\\w+bar)", [b"xbar", b"zzbar", b"_bar"]), ("(\\d+bar)", [b"1bar", b"42bar"]), ("([a-z]+x)", [b"ax", b"qqx"]),
+           ("(?:\\w{2,}k)", [b"abk", b"zzzk"]), ("(\\w+?b(a)r)", [b"xbar"]), ("(?P<n>[0-9]+-)", [b"7-", b"00-"])]
+NEST_L2 = ["baz", "lock", "q", "END"]
+
+
+def gen_nested_literal(rng):
+    """literal + nested group + literal (the inner-literal extractor must cross / choose across the group), optionally
+    in an alternation and behind a prefix that disables prefix acceleration: (pattern, lines)"""
+    pre, pre_s = rng.choice(NEST_PRE)
+    l1, (inn, inn_s), l2 = rng.choice(NEST_L1), rng.choice(NEST_IN), rng.choice(NEST_L2)
+    core = l1 + inn + l2
+    alt = rng.random() < 0.5
+    suf, suf_s = rng.choice([("", b""), ("\\s+", b" "), ("\\b", b"")])
+    pat = pre + ("(" + core + "|Moriarty)" if alt else core) + suf
+    lines = []
+    for mid in inn_s + [b""]:
+        lines.append(rng.choice([b"", b"zz", b"- "]) + pre_s + l1.encode() + mid + l2.encode() + suf_s + rng.choice([b"", b"w", b"."]))
+    lines.append(b" " + l1.encode() + l2.encode() + b" ")
+    if alt:
+        lines.append(pre_s + b"Moriarty" + suf_s + b"x")
+    rng.shuffle(lines)
+    return pat, lines
+
+
+NONUTF8 = [("\\s+((?-u:\\xFF)herlock|[A-Z]atso[a-z]|Moriarty)\\s+", [b" \xffherlock ", b" Watson ", b" Moriarty ", b" herlock "]),
+           ("\\w(?-u:\\xFF\\xFE)x|\\dq(?-u:\\xC3)", [b"a\xff\xfex", b"1q\xc3", b"a\xffx", b"1q"]),
+           ("[a-z]+(?-u:\\xE9)t\\b", [b"caf\xe9t", b"caf\xc3\xa9t", b"\xe9t"]),
+           ("\\b(?-u:[\\xF0-\\xF1])ab\\s", [b"\xf0ab ", b"\xf1ab\t", b"\xf2ab "]),
+           ("(?-u:\\x80)foo\\w+|bar(?-u:\\xBF)\\d", [b"\x80foox", b"bar\xbf1", b"foox", b"bar1"]),
+           ("\\s(?-u:\\xC3)(?-u:\\x28)z+", [b" \xc3(zz", b" \xc3\xa9zz"])]
+
+
+def gen_nonutf8_case(rng):
+    """patterns whose inner literals are not UTF-8, with haystacks that hold those bytes"""
+    pat, hay = rng.choice(NONUTF8)
+    o = default_opts(word=rng.random() < 0.2, crlf=rng.random() < 0.15, ban=None)
+    lines = [rng.choice([b"", b"x ", b"- "]) + h + rng.choice([b"", b" y"]) for h in hay] + [b"plain", b""]
+    rng.shuffle(lines)
     return dict(patterns=[pat], opts=o, lines=lines)
 
 
@@ -781,6 +827,8 @@ CORPUS = [
     (["\\pL{2}quux"], {}), (["a", "b\\d"], {}), (["x*yz"], {}), (["(?:ab){11}"], {}), (["[a-k]z"], {}), (["[a-j]zz"], {}),
     (["Z|[\\r\\n]"], dict(crlf=True, word=True)), (["ZZ|[\\r\\n]"], dict(crlf=True)), (["Z|\\n"], {}), (["ZZ|\\n"], {}),
     (["a\rb"], dict(crlf=True)), (["a\rb"], dict(crlf=True, fixed=True)), (["a\nb"], {}), (["a\rb"], {}), (["a\x00b"], dict(lt=0, ban=None)),
+    (["foo(\\w+bar)baz"], dict(word=True)), (["\\s+([A-Z]foo(\\d+bar)baz|Moriarty)\\s+"], {}),
+    (["\\s+((?-u:\\xFF)herlock|[A-Z]atso[a-z]|Moriarty)\\s+"], dict(ban=None)), (["\\A[0-9]+"], {}),
     (["foo\\z"], dict(whole=True)), (["(?-m:foo$)"], dict(whole=True)), (["\\Afoo"], dict(word=True)),
     (["(?:é\\.|x|K)K"], dict(crlf=True, unicode=False, dotall=True)), (["(?:ab|cd)ef"], {}), (["a(?:bc|de)(?:f|gh)"], {}),
     (["(?:ab|cd)(?:ef|g)\\b"], {}), (["(?:ab|c\\d)ef"], {}),
@@ -807,18 +855,26 @@ def run(ctx):
     cases = []
     for pats, kw in CORPUS:
         o = default_opts(**kw)
-        cases.append(dict(patterns=pats, opts=o, lines=gen_lines(rng, pats, o, 6) + [b"foo", b"a b", b"xfoobar1 baz"]))
+        cases.append(dict(patterns=pats, opts=o, lines=gen_lines(rng, pats, o, 6) + [b"foo", b"a b", b"xfoobar1 baz", b" fooxbarbaz ", b" Qfoo1barbaz ",
+                                                                                     b" \xffherlock ", b"123"]))
     scraped = scrape_repo_patterns()
     stats["scraped_patterns"] = len(scraped)
     take = scraped if not ctx.quick() else rng.sample(scraped, min(len(scraped), 500))
     for p in take:
         o = default_opts() if rng.random() < 0.5 else gen_options(rng)
         cases.append(dict(patterns=[p], opts=o, lines=gen_lines(rng, [p], o, 5)))
-    for _ in range(ctx.count(1500)):
+    for _ in range(ctx.count(1200)):
         np = 1 if rng.random() < 0.85 else rng.randint(2, 3)
         pats = [gen_pattern(rng) for _ in range(np)]
         o = gen_options(rng)
         cases.append(dict(patterns=pats, opts=o, lines=gen_lines(rng, pats, o, 6)))
+    for _ in range(ctx.count(120)):
+        pat, lines = gen_nested_literal(rng)
+        cases.append(dict(patterns=[pat], opts=default_opts(word=rng.random() < 0.5, icase=rng.random() < 0.1), lines=lines))
+    for _ in range(ctx.count(80)):
+        cases.append(gen_nonutf8_case(rng))
+    stats["nested_literal_cases"] = ctx.count(120)
+    stats["nonutf8_literal_cases"] = ctx.count(80)
     for _ in range(ctx.count(150)):
         cases.append(gen_anchor_case(rng))
     stats["haystack_anchor_cases"] = ctx.count(150)
